@@ -1,4 +1,4 @@
 SPECIFICATION Spec
-CONSTANT MaxSteps = 400
+CONSTANT MaxSteps = 1500
 INVARIANT Emit
 CHECK_DEADLOCK FALSE
